@@ -5,7 +5,7 @@ from ..common import Report, main_wrapper, scratch
 from ..edgecheck import collect_edges, decide_edges
 from .args import parse
 
-MODULES = ["harness.corpus.basic"]
+MODULES = ["harness.corpus.basic", "harness.corpus.depmat"]
 
 
 def main():
